@@ -23,6 +23,8 @@ def run(v, tier, seed, replay):
     finally:
         s.cleanup()
     common.client_entry_points(v, "C01", tier, seed, ('C01',))
+    common.oracle_only(v, "C01", "core", "canonlarge", "quick" if tier == "quick" else "quick", seed, ('C01',))  # >1000 recovery tiles, close/reopen, old events still provable
+    common.oracle_only(v, "C01", "node", "server", tier, seed, ('C01',), need_rocks=True)  # every (event, version) pair through the real HTTP API
     common.hyperb_tie(v, "C01", tier, seed, "C01_hyper_batch_search_is_the_published_search is about Hyper/HyperBatch.v (bfind); its correspondence with balloon/hyper/search.go no longer checks")
     v.coverage["trusted_base"] = vlib.TRUSTED_COMMON + [
         "no hypothesis on the hash function in C01_membership_complete; instance hypotheses (key length, injective key bits, value codec round trip, boolean equalities) hold at the SHA-256 instance by construction and are exercised by the correspondence",
